@@ -161,12 +161,15 @@ def run(ck, m):
                 continue
             other = [t for k, t in tm2.items() if k != ve] + [els]
             okf = b.dominates(ve_t, rc) and not any(o != ve_t and b.dominates(o, rc) for o in other)
+            # ... and for EVERY VersionError: no role / mode test may let a refused versioned write through unresolved
+            okf = okf and (b.postdominates(rc, ve_t) or rc == ve_t)
             # otherwise the store's answer is returned unchanged
             ret_same = any(r[0] == 'call' and r[1] == sc for r in core.place_origins(b, {'l': 0}, stop_at_calls=True))
             okf = okf and ret_same
     ck.ob('C19.f', short(ent[0].id) if ent else 'entry', 'resolver-only-for-version-error', okf,
           'the resolver is called exactly for VersionError; any other answer of the store is returned unchanged' if okf else
-          'conflict entry point does not gate the resolver on VersionError', '%s:%s' % (ent[0].file, ent[0].line) if ent else '')
+          'conflict entry point does not hand every VersionError (and nothing else) to the resolver: a versioned write can be refused on a '
+          'newer-strategy database (for instance on a node in the Secondary role) while the primary accepts it', '%s:%s' % (ent[0].file, ent[0].line) if ent else '')
 
 
 def returns_resolving(cb):
